@@ -401,7 +401,7 @@ theorem not_cond_of_plain {s : KState ℚ σ} {e : EvId} (h : (s.ev e).kind = .p
   unfold isCond; rw [h]
 
 /-- a safe `succeed/fail` that is executed hits a pending plain event -/
-theorem userTarget {s : KState ℚ σ} {e : EvId} (hs : Once.SafeTarget s e) (hd : s.triggered e = true ∨ isCond s e = false)
+theorem userTarget {s : KState ℚ σ} {e : EvId} (_hs : Once.SafeTarget s e) (hd : s.triggered e = true ∨ isCond s e = false)
     (hnt : ¬ s.triggered e = true) : (s.ev e).out = none ∧ isCond s e = false := by
   refine ⟨Once.out_none_of_not_triggered s e hnt, ?_⟩
   rcases hd with h | h
